@@ -506,25 +506,30 @@ fn c14_anylayout(ctx: &mut Ctx, byref: bool) {
                 macro_rules! body {
                     ($d:expr, $mk:expr) => {{
                         let mut d = $d;
-                        let mut ok_path = true;
-                        for (k, s) in &paths[m as usize] {
-                            let _ = d.process_keyevent(KeyEvent::new(*k, *s));
-                        }
-                        d.change_layout($mk);
-                        for k in &plain_keys {
-                            let got = d.process_keyevent(KeyEvent::new(*k, KeyState::Down));
-                            let want = Some(map_direct(to, *k, &mods_from_bits(m), mode));
-                            n += 1;
-                            if got != want && bads.len() < 8 {
-                                bads.push((from, to, m, mode, *k, fmt_dk(&want), fmt_dk(&got)));
-                                ok_path = false;
+                        let prep = guarded(|| {
+                            for (k, s) in &paths[m as usize] {
+                                let _ = d.process_keyevent(KeyEvent::new(*k, *s));
+                            }
+                            d.change_layout($mk);
+                        });
+                        if prep.is_ok() {
+                            for k in &plain_keys {
+                                let got = guarded(|| d.process_keyevent(KeyEvent::new(*k, KeyState::Down)));
+                                let want = guarded(|| Some(map_direct(to, *k, &mods_from_bits(m), mode)));
+                                n += 1;
+                                if got != want && bads.len() < 8 {
+                                    let f = |r: &Result<Option<DecodedKey>, String>| match r {
+                                        Ok(x) => fmt_dk(x),
+                                        Err(p) => p.clone(),
+                                    };
+                                    bads.push((from, to, m, mode, *k, f(&want), f(&got)));
+                                }
                             }
                         }
-                        let _ = ok_path;
                     }};
                 }
                 if byref {
-                    body!(EventDecoder::new(&ANY_STATICS[from], mode), &ANY_STATICS[to]);
+                    body!(EventDecoder::new(any_static(from), mode), any_static(to));
                 } else {
                     body!(EventDecoder::<AnyLayout>::new(any_of(from), mode), any_of(to));
                 }
@@ -569,29 +574,39 @@ fn c14_wrap(ctx: &mut Ctx) {
         for m in 0..512u16 {
             for mode in MODES {
                 let mut d = EventDecoder::new(Wrap(l as u8), mode);
-                for (k, s) in &paths[m as usize] {
-                    let _ = d.process_keyevent(KeyEvent::new(*k, *s));
+                if guarded(|| {
+                    for (k, s) in &paths[m as usize] {
+                        let _ = d.process_keyevent(KeyEvent::new(*k, *s));
+                    }
+                })
+                .is_err()
+                {
+                    continue;
                 }
+                let f = |r: &Result<Option<DecodedKey>, String>| match r {
+                    Ok(x) => fmt_dk(x),
+                    Err(p) => p.clone(),
+                };
                 for k in ALL_KEYS {
                     if is_modifier_key(k) {
                         continue;
                     }
                     let mut d2 = d.clone();
-                    let got = d2.process_keyevent(KeyEvent::new(k, KeyState::Down));
-                    let want = Some(map_direct(l, k, &mods_from_bits(m), mode));
+                    let got = guarded(|| d2.process_keyevent(KeyEvent::new(k, KeyState::Down)));
+                    let want = guarded(|| Some(map_direct(l, k, &mods_from_bits(m), mode)));
                     n += 1;
                     if got != want && bads.len() < 8 {
-                        bads.push((l, m, mode, k, fmt_dk(&want), fmt_dk(&got)));
+                        bads.push((l, m, mode, k, f(&want), f(&got)));
                     }
                     // and the other way round: flipping the mode right before the press takes effect at once
                     let other = if mode == HandleControl::Ignore { HandleControl::MapLettersToUnicode } else { HandleControl::Ignore };
                     let mut d3 = d.clone();
                     d3.set_ctrl_handling(other);
-                    let got = d3.process_keyevent(KeyEvent::new(k, KeyState::Down));
-                    let want = Some(map_direct(l, k, &mods_from_bits(m), other));
+                    let got = guarded(|| d3.process_keyevent(KeyEvent::new(k, KeyState::Down)));
+                    let want = guarded(|| Some(map_direct(l, k, &mods_from_bits(m), other)));
                     n += 1;
                     if got != want && bads.len() < 8 {
-                        bads.push((l, m, other, k, fmt_dk(&want), fmt_dk(&got)));
+                        bads.push((l, m, other, k, f(&want), f(&got)));
                     }
                 }
             }
